@@ -13,10 +13,15 @@ def input_specs(shape):
     """[(name, lo, hi)] in the order the harness reads them."""
     out = []
     W = shape.get("W", 15)
+    if shape.get("errorfree"):
+        for c in range(shape["ncols"]):
+            out.append(("h_%d" % c, 0, 1))
+        for r in range(len(shape["reads"])):
+            out.append(("s_%d" % r, 0, 1))
     for r, rd in enumerate(shape["reads"]):
         for c in rd["cols"]:
             fixed = (rd.get("alleles") or {}).get(str(c))
-            if fixed is None:
+            if fixed is None and not shape.get("errorfree"):
                 out.append(("a_%d_%d" % (r, c), 0, 1))
             out.append(("w_%d_%d" % (r, c), shape.get("Wmin", 0), W))
     for c in range(shape["ncols"]):
@@ -39,11 +44,19 @@ def generate(shape):
     A('extern "C" void harness() {')
     A("  ReadSet* rs = new ReadSet();")
     W = shape.get("W", 15)
+    if shape.get("errorfree"):
+        # error-free reads: the allele of read r at column c is the true haplotype bit h_c, complemented when the read stems from haplotype 1
+        for c in range(shape["ncols"]):
+            A('  unsigned h_%d = sym_u32("h_%d", 0, 1);' % (c, c))
+        for r in range(len(shape["reads"])):
+            A('  unsigned s_%d = sym_u32("s_%d", 0, 1);' % (r, r))
     for r, rd in enumerate(shape["reads"]):
         A('  {')
         for c in rd["cols"]:
             fixed = (rd.get("alleles") or {}).get(str(c))
-            if fixed is None:
+            if shape.get("errorfree"):
+                A('    unsigned a_%d = (h_%d == s_%d) ? 0u : 1u;' % (c, c, r))
+            elif fixed is None:
                 A('    unsigned a_%d = sym_u32("a_%d_%d", 0, 1);' % (c, r, c))
             else:
                 A('    unsigned a_%d = %d;' % (c, fixed))
@@ -72,7 +85,10 @@ def generate(shape):
         A("  }")
     for f, m, ch in shape.get("trios", []):
         A("  ped->addRelationship(%d, %d, %d);" % (f, m, ch))
-    A("  PedigreeDPTable dp(rs, recomb, ped, %s, nullptr);" % ("true" if shape.get("distrust") else "false"))
+    A("  std::vector<unsigned int> positions;")
+    for p in pos:
+        A("  positions.push_back(%d);" % p)
+    A("  PedigreeDPTable dp(rs, recomb, ped, %s, &positions);" % ("true" if shape.get("distrust") else "false"))
     A('  sym_out("cost", 0, dp.get_optimal_score());')
     A("  std::vector<bool>* part = dp.get_optimal_partitioning();")
     A('  for (unsigned i = 0; i < %d; ++i) sym_out("part", i, (*part)[i] ? 1u : 0u);' % len(shape["reads"]))
@@ -87,7 +103,19 @@ def generate(shape):
     return "\n".join(L) + "\n"
 
 
+def with_alleles(shape, inp):
+    """inputs completed with the a_r_c entries an error-free shape derives"""
+    if not shape.get("errorfree"):
+        return inp
+    inp = dict(inp)
+    for r, rd in enumerate(shape["reads"]):
+        for c in rd["cols"]:
+            inp["a_%d_%d" % (r, c)] = 0 if inp["h_%d" % c] == inp["s_%d" % r] else 1
+    return inp
+
+
 def brute_force(shape, inp):
+    inp = with_alleles(shape, inp)
     """Independent definition-level oracle on concrete inputs: returns
     (min_cost or None for Mendelian conflict, set of optimal (partition, tv)
     witnesses as a function evaluating any candidate)."""
